@@ -19,13 +19,16 @@ Definition CInv (s : cst) (m : cmst) : Prop :=
 Lemma cstep_inv s m o : CInv s m ->
   let '(m1, v) := cmon m o (snd (cstep s o)) in v = [] /\ CInv (fst (cstep s o)) m1.
 Proof.
-  intros [I1 I2]. destruct o as [o|o]; simpl.
+  intros [I1 I2]. destruct o as [o|o|p]; [simpl | simpl | unfold cmon, cstep].
   - pose proof (StackXProofs.xstep_inv C09Spec.mon C09Proofs.Inv C09Proofs.step_inv (fst s) (fst m) o I1) as H.
     destruct (StackX.xstep (fst s) o) as [s1 out]. simpl in *. rewrite stack_obs_SO.
     destruct (StackXSpec.xmon C09Spec.mon (fst m) o out) as [m1 v]. destruct H as [Hv HI]. split; [exact Hv|]. split; assumption.
   - pose proof (BindSchedProofs.step_inv (snd s) (snd m) o I2) as H.
     destruct (BindSched.step (snd s) o) as [s1 out]. simpl in *. rewrite sched_obs_BO.
     destruct (BindSchedSpec.mon (snd m) o out) as [m1 v]. destruct H as [Hv HI]. split; [exact Hv|]. split; assumption.
+  - pose proof (C09Proofs.step_inv (fst s) (fst m) (Stack.ListBinds p) I1) as H.
+    destruct (Stack.step (fst s) (Stack.ListBinds p)) as [s1 out]. cbn [fst snd] in *. rewrite stack_obs_SO.
+    destruct (C09Spec.mon (fst m) (Stack.ListBinds p) out) as [m1 v]. destruct H as [Hv HI]. cbn [fst snd]. split; [exact Hv|]. split; assumption.
 Qed.
 
 Theorem machine_accepted_from ops : forall s m, CInv s m -> accepted (cjudge m (snd (crun s ops))) = true.
